@@ -244,6 +244,62 @@ def r6_fixed_length_string_is_a_string(ctx, T, rule="C12.R6"):
     ctx.require(rule, 200)
 
 
+LIT_OF = {"DollarString": "StringLiteral", "PercentInteger": "IntegerLiteral", "AmpersandLong": "LongLiteral",
+          "BangSingle": "SingleLiteral", "HashDouble": "DoubleLiteral"}
+
+
+def r7_rewrites_preserve_type(ctx, rule="C12.R7"):
+    """The post-linter rewrites (ExpressionReducer impls) run AFTER the type checks. An arm of
+    visit_expression that replaces an expression of variant V by a literal must pick the literal of
+    V's static type: the literal is built under a switch on the type qualifier, and each qualifier's
+    arm builds the literal of that type. Otherwise an expression the checker typed as a string is an
+    integer at run time (`A$ = F$(1)` with F$ undefined: accepted, Type mismatch when run)."""
+    prog = ctx.prog
+    tr = [t for t in prog.traits.values() if t["path"].endswith("::ExpressionReducer")]
+    if len(tr) != 1:
+        raise CheckError("trait ExpressionReducer: %d matches" % len(tr))
+    tid = [k for k, v in prog.traits.items() if v is tr[0]][0]
+    impls = prog.impls_of_trait(tid)
+    n = 0
+    for impl in impls:
+        fid = next((it["id"] for it in impl["items"] if it["name"] == "visit_expression"), None)
+        f = prog.fns.get(fid) if fid else None
+        if f is None:
+            continue
+        body = f.body
+        qsw = mir.enum_switches(prog, body, ot.TQ)
+        for sw in mir.enum_switches(prog, body, ot.EXPR):
+            for variant, tgt in sorted(sw.arms.items()):
+                region = mir.arm_region(body, sw.bb, tgt)
+                for b, st in mir.region_aggregates(body, region):
+                    r = st["r"]
+                    if r.get("adt") != ot.EXPR or r.get("variant") not in LIT_OF.values() or r["variant"] == variant:
+                        continue
+                    quals = set(ALLQ)
+                    for q in qsw:
+                        if q.bb not in region:
+                            continue
+                        inside = set()
+                        for qn, qt in q.arms.items():
+                            if b in mir.arm_region(body, q.bb, qt):
+                                inside.add(qn)
+                        if q.otherwise is not None and b in mir.arm_region(body, q.bb, q.otherwise):
+                            inside |= set(q.wildcard_variants(prog))
+                        if inside:
+                            quals &= inside
+                    bad = sorted(qn for qn in quals if LIT_OF[qn] != r["variant"])
+                    n += 1
+                    ctx.decide(not bad, rule, "%s:%s:%s->%s" % (rule, impl["self_ty"].split("::")[-1].split("<")[0], variant, r["variant"]),
+                               f.loc, "Expression::%s is replaced by %s only where its qualifier is %s"
+                               % (variant, r["variant"], sorted(quals)),
+                               "%s::visit_expression replaces an Expression::%s by an %s also when its type "
+                               "qualifier is %s: the rewrite runs after the type checks, so an expression the "
+                               "checker typed as %s is an %s at run time (accepted program, Type mismatch or a "
+                               "wrong value when run)" % (impl["self_ty"].split("::")[-1].split("<")[0], variant,
+                                                          r["variant"], bad, bad, r["variant"]))
+    ctx.require(rule, 1)
+
+
 def run(ctx):
     common.install(ctx)
     T = ot.OpTables(ctx.prog)
@@ -254,3 +310,4 @@ def run(ctx):
     r4_by_ref_exact(ctx, T)
     r5_condition_typing(ctx, T)
     r6_fixed_length_string_is_a_string(ctx, T)
+    r7_rewrites_preserve_type(ctx)
